@@ -88,6 +88,20 @@ Theorem resize_accepted_iff_fits : forall s m n, InvA s ->
 Proof. exact resize_accepted_iff. Qed.
 Print Assumptions resize_accepted_iff_fits.
 
+(* the same for a message sent on a bus that allows at most lim bytes (CAN 2.0A: 8) *)
+Theorem resize_on_bus_accepted_iff_fits : forall s m n lim, InvA s ->
+  (is_ok (snd (step_resize_bus s m n lim)) <->
+   0 <= n /\ (n = gbytes s m \/ (n <= 2 ^ 60 - 1 /\ n <= lim)) /\
+   (glay s m = nil \/ last_end (sz s) (rel s) (glay s m) <= 8 * n)).
+Proof. exact resize_bus_accepted_iff. Qed.
+Print Assumptions resize_on_bus_accepted_iff_fits.
+
+(* a resize refused by the message or by the bus leaves the whole state (payload size included) as it was *)
+Theorem refused_resize_changes_nothing : forall s m n lim,
+  ~ is_ok (snd (step_resize_bus s m n lim)) -> fst (step_resize_bus s m n lim) = s.
+Proof. exact resize_bus_refused_same. Qed.
+Print Assumptions refused_resize_changes_nothing.
+
 (* growing a top-level signal by a is accepted exactly when a <= the gaps behind it plus the
    trailing space; shrinking to a positive size always *)
 Theorem grow_accepted_iff_fits : forall s m x old n, InvA s -> InvM s -> InvR s ->
